@@ -9,6 +9,7 @@ Definition c507_resp (d : db) (q : request) (rsp : response) : bool :=
     if (st =? 20000) && (p_state p =? Pending)
     then match reg_id q with Some rid => registered d rid | None => true end
     else true
+  | RspPanic => match reg_id q with Some _ => false | None => true end   (* the re-read found no promise: util.Assert *)
   | _ => true
   end.
 
